@@ -4,6 +4,7 @@ import (
 	"context"
 	"fmt"
 	"reflect"
+	"sort"
 
 	"github.com/arr-ai/arrai/pkg/fu"
 
@@ -80,7 +81,7 @@ func (u UnionSet) Enumerator() ValueEnumerator {
 }
 
 type unionSetOrderedEnumerator struct {
-	set     frozen.Iterator[any]
+	subsets []Set
 	current ValueEnumerator
 }
 
@@ -88,11 +89,23 @@ func (e *unionSetOrderedEnumerator) MoveNext() bool {
 	if e.current != nil && e.current.MoveNext() {
 		return true
 	}
-	if !e.set.Next() {
+	if len(e.subsets) == 0 {
 		return false
 	}
-	e.current = e.set.Value().(Set).ArrayEnumerator()
+	e.current = e.subsets[0].ArrayEnumerator()
+	e.subsets = e.subsets[1:]
 	return e.current.MoveNext()
+}
+
+// orderedSubsets returns the buckets' sets sorted by Less. (They cannot be
+// collected into a frozen.Set, which compares its elements with ==.)
+func (u UnionSet) orderedSubsets() []Set {
+	subsets := make([]Set, 0, u.m.Count())
+	for i := u.m.Range(); i.Next(); {
+		subsets = append(subsets, i.Value().(Set))
+	}
+	sort.Slice(subsets, func(i, j int) bool { return subsets[i].Less(subsets[j]) })
+	return subsets
 }
 
 func (e *unionSetOrderedEnumerator) Current() Value {
@@ -103,9 +116,7 @@ func (u UnionSet) ArrayEnumerator() ValueEnumerator {
 	return &unionSetOrderedEnumerator{
 		// ordered by rel.Set because the bucket keys are strings
 		// which wouldn't provide the correct sorting based on type.
-		set: u.m.Values().OrderedRange(
-			func(a, b interface{}) bool { return a.(Set).Less(b.(Set)) },
-		),
+		subsets: u.orderedSubsets(),
 		current: nil,
 	}
 }
@@ -195,20 +206,15 @@ func (u UnionSet) Less(v Value) bool {
 		return u.Kind() < v.Kind()
 	}
 	x := v.(UnionSet)
-	less := func(a, b interface{}) bool {
-		return a.(Set).Less(b.(Set))
-	}
-	a := u.m.Values().OrderedRange(less)
-	b := x.m.Values().OrderedRange(less)
-	for {
-		aHasMore, bHasMore := a.Next(), b.Next()
+	a, b := u.orderedSubsets(), x.orderedSubsets()
+	for i := 0; ; i++ {
 		switch {
-		case !aHasMore:
-			return bHasMore
-		case !bHasMore:
+		case i >= len(a):
+			return i < len(b)
+		case i >= len(b):
 			return false
 		}
-		aSubset, bSubset := a.Value().(Set), b.Value().(Set)
+		aSubset, bSubset := a[i], b[i]
 		if aSubset.Less(bSubset) {
 			return true
 		}
